@@ -243,7 +243,7 @@ func c19Parse(c *Ctx) {
 		}
 	}
 	// table content folded from the initialiser
-	in := bitdom.New(c.P.SSA, 64)
+	in := bitdom.New(c.P.SSA, c.wordBits())
 	pk := c.P.Pkg("pkg/bech32/address")
 	if g, ok := pk.Members["hrpStrings"].(*ssa.Global); ok {
 		in.Call(pk.Func("init"), nil)
@@ -348,9 +348,9 @@ func c19Migration(c *Ctx) {
 	okArith := false
 	detail := ""
 	if encLen != nil {
-		in := bitdom.New(c.P.SSA, 64)
+		in := bitdom.New(c.P.SSA, c.wordBits())
 		bitdom.ExtraInterpreted["github.com/iotaledger/iota.go/encoding/b1t6"] = true
-		ex, err := in.Call(encLen.Func("EncodedLen"), []bitdom.Val{bitdom.ConstBV(32, 64, true)})
+		ex, err := in.Call(encLen.Func("EncodedLen"), []bitdom.Val{bitdom.ConstBV(32, c.wordBits(), true)})
 		if err == nil && !ex.Panic {
 			trits, _ := ex.Results[0].(*bitdom.BV).Int()
 			addrTrytes := trits / 3
